@@ -669,6 +669,10 @@ def replay_file(path):
         from . import realrace
 
         rr = realrace.replay(payload)
+    elif wl == "W":
+        from . import wrapfarm
+
+        rr = wrapfarm.replay(payload)
     else:
         print(f"unknown workload {wl}")
         return 2
@@ -707,8 +711,8 @@ def replay_file(path):
 
 TIERS = {
     # seconds per phase inside an op job; prange job budgets
-    "quick": {"A": 45, "B": 15, "n_real": 2, "C": 40, "T": "quick", "D": False},
-    "thorough": {"A": 900, "B": 240, "n_real": 12, "C": 600, "T": "thorough", "D": True},
+    "quick": {"A": 45, "B": 15, "n_real": 2, "C": 40, "W": 40, "T": "quick", "D": False},
+    "thorough": {"A": 900, "B": 240, "n_real": 12, "C": 600, "W": 600, "T": "thorough", "D": True},
 }
 
 
@@ -724,7 +728,8 @@ def run_check(args):
         conf["A"] = args.budget
         conf["B"] = max(3.0, conf["B"] * scale)
         conf["C"] = max(5.0, conf["C"] * scale)
-    only = set(args.only.split(",")) if args.only else {"A", "B", "C", "T", "R", "D"}
+        conf["W"] = max(5.0, conf["W"] * scale)
+    only = set(args.only.split(",")) if args.only else {"A", "B", "C", "T", "R", "D", "W"}
     print(f"C12 check: tier={tier} VERIF_SEED={seed} PYTHONHASHSEED={os.environ.get('PYTHONHASHSEED')} repo={driver.repo_dir()} nproc={args.nproc}")
     sys.stdout.flush()
 
@@ -757,6 +762,8 @@ def run_check(args):
             )
     if only & {"C", "T"}:
         jobs.append({"name": "prange", "kind": "prange", "seed": seed, "budget_C": conf["C"] if "C" in only else 0, "T": conf["T"] if "T" in only else None, **({"dump": True, "max_runs": args.max_runs, "budget_C": 10**6 if "C" in only else 0} if args.dump else {})})
+    if "W" in only and not getattr(args, "ops", None):
+        jobs.append({"name": "wrapfarm", "kind": "farm", "seed": seed, "budget_W": conf["W"], **({"dump": True, "max_runs": args.max_runs, "budget_W": 10**6} if args.dump else {})})
     if conf["D"] and "D" in only:
         for name in S.LAZY_KERNELS:
             jobs.append({"name": f"realrace:{name}", "kind": "realrace", "kernel": name, "seed": seed})
@@ -815,6 +822,10 @@ def dispatch_job(job):
         from . import realrace
 
         return realrace.job_realrace(job)
+    if job["kind"] == "farm":
+        from . import wrapfarm
+
+        return wrapfarm.job_farm(job)
     raise ValueError(job["kind"])
 
 
